@@ -20,6 +20,9 @@ type Oblig struct {
 	Pos   string
 	Descr string
 	Fn    string
+	// post obligations: the symbolic results of the returning path (scalar results only; nil otherwise).
+	// Their model values are what the counterexample predicts the real code returns.
+	Results []*Term
 	// filled by the solver stage
 	Res SolverResult
 }
@@ -37,6 +40,7 @@ type Exec struct {
 
 	initHeap map[string]*Term
 	axioms   []*Term
+	curResults []*Term // scalar result terms of the return being checked (nil entries for non-scalar results)
 	preOnly  bool // callContractSig: check the precondition only (go statements)
 	nlAxioms []*Term // lemma axioms of the non-linear operators (added to a query only when needed)
 	axiomSet map[string]bool
@@ -100,6 +104,9 @@ func (ex *Exec) check(st *State, kind, site string, goal *Term, descr string, po
 		return
 	}
 	o := &Oblig{Site: site, Kind: kind, Path: st.pathID, Hyps: append([]*Term(nil), st.pc...), Goal: goal, Descr: descr, Pos: pos, Fn: ex.fnName()}
+	if kind == "post" {
+		o.Results = ex.curResults
+	}
 	ex.obligs = append(ex.obligs, o)
 }
 
